@@ -54,15 +54,27 @@ fn same_seed_same_history() {
 	}
 }
 
-/// The recorded candidate finding of profile `async` (see replays/): update 2's file lands before
-/// update 1's, the process dies, and `read_all_channel_monitors_with_updates` panics.
+/// The candidate finding of profile `async`: an update file lands before its predecessor's, the
+/// process dies, and `read_all_channel_monitors_with_updates` panics. Some seed among the first
+/// few dozen shows it, and replaying that run's recorded trace reproduces the same oracle failure.
+/// (replays/C19-async-cross-key-order.json is a minimised instance; like every replay file it is
+/// tied to the version of the lnsim world it was recorded with.)
 #[test]
-fn recorded_async_finding_replays() {
+fn async_cross_key_reordering_is_found_and_replays() {
 	simcore::runner::install_panic_hook();
-	let s = std::fs::read_to_string(concat!(env!("CARGO_MANIFEST_DIR"), "/replays/C19-async-cross-key-order.json")).unwrap();
-	let file: serde_json::Value = serde_json::from_str(&s).unwrap();
-	let out = run_isolated(|| PersistSim.replay(&file["replay"]));
-	assert!(out.harness_errors.is_empty(), "{:?}", out.harness_errors);
-	let want = file["oracle"].as_str().unwrap();
-	assert!(out.violations.iter().any(|v| v.oracle == want), "{:?}", out.violations);
+	let want = persistsim::asyncp::ORACLE_REORDER;
+	for i in 0..60u64 {
+		let seed = mix(1, i);
+		let out = run_isolated(|| PersistSim.run("async", seed, Tier::Quick));
+		assert!(out.harness_errors.is_empty(), "{:?}", out.harness_errors);
+		if out.violations.iter().any(|v| v.oracle == want) {
+			let rep = out.replay.clone().expect("failing run carries its replay");
+			let again = run_isolated(|| PersistSim.replay(&rep));
+			assert!(again.violations.iter().any(|v| v.oracle == want), "{:?}", again.violations);
+			assert_eq!(again.history_fp, out.history_fp);
+			return;
+		}
+		assert!(out.violations.is_empty(), "{:?}", out.violations);
+	}
+	panic!("no run showed the cross-key reordering failure");
 }
